@@ -252,11 +252,16 @@ template<typename K, typename V> static void run_kv(const std::string& mech, lon
 {
 	typedef momo::internal::MapKeyValueTraits<K, V, AMM> KVT;
 	AMM mm; const char* outcome = "Ok";
-	K* sk = lives<K>(5, 1); V* sv = lives<V>(6, 1); K* dk = block<K>(1); V* dv = block<V>(1);
+	K* sk = lives<K>(5, 1); V* sv = lives<V>(6, 1);
+	bool rep = (mech == "kvreplace" || mech == "kvreprel");
+	K* dk = rep ? lives<K>(8, 1) : block<K>(1); V* dv = rep ? lives<V>(9, 1) : block<V>(1);
+	K* ek = (mech == "kvreprel") ? block<K>(1) : nullptr; V* ev = (mech == "kvreprel") ? block<V>(1) : nullptr;
 	begin_case(k);
 	try
 	{
 		if (mech == "kvreloc") KVT::Relocate(&mm, *sk, *sv, dk, dv);
+		else if (mech == "kvreplace") KVT::Replace(mm, *sk, *sv, *dk, *dv);
+		else if (mech == "kvreprel") KVT::ReplaceRelocate(mm, *sk, *sv, *dk, *dv, ek, ev);
 		else
 		{
 			typename KVT::template ValueCreator<const V&> vc(mm, static_cast<const V&>(*sv));
@@ -437,7 +442,7 @@ int main()
 			if (cat == "N") run_tree<kit::ElemNtm>(n, k, pos); else if (cat == "C") run_tree<kit::ElemCpo>(n, k, pos); else if (cat == "T") run_tree<kit::ElemThm>(n, k, pos); else puts("?");
 			fflush(stdout); continue;
 		}
-		if (mech == "kvreloc" || mech == "kvcreate")
+		if (mech == "kvreloc" || mech == "kvcreate" || mech == "kvreplace" || mech == "kvreprel")
 		{
 			std::string cv; is >> cv;
 			if (cat == "N") run_kv1<kit::ElemNtm>(mech, k, cv); else if (cat == "C") run_kv1<kit::ElemCpo>(mech, k, cv); else if (cat == "T") run_kv1<kit::ElemThm>(mech, k, cv); else puts("?");
